@@ -12,7 +12,8 @@
 EXTENDS CoreBGP
 
 CONSTANTS Faults,       \* how many faults the environment may inject in total
-          LivePassive   \* the peer is passive (the remote then has to connect)
+          LivePassive,  \* the peer is passive (the remote then has to connect)
+          RemoteDials   \* the remote opens connections of its own
 
 P == "p"
 LocalID == <<10, 0, 0, 5>>
@@ -73,7 +74,7 @@ Cooperate(c) ==
   /\ UNCHANGED <<budget, rid>>
 
 RemoteConnects ==      \* the remote dials us when we have no inbound connection in progress
-  /\ Free # {} /\ \A c \in DOMAIN conn : conn[c].dir # "in" \/ conn[c].lclosed
+  /\ RemoteDials /\ Free # {} /\ \A c \in DOMAIN conn : conn[c].dir # "in" \/ conn[c].lclosed
   /\ srv.backlog = <<>>
   /\ EnvConnect(NextName, "r", "l")
   /\ UNCHANGED <<budget, rid>>
